@@ -54,6 +54,22 @@ fn check_static<C: ScriptContext>(ms: &Miniscript<DK, C>, ctx: crate::mirror::sp
             None => continue,
         };
         n += 1;
+        // opcodes (pre-taproot): every opcode above OP_16 counts whether executed or not, an
+        // executed CHECKMULTISIG adds its key count
+        let pre_tap = ctx != crate::mirror::spec::Ctx::Tap;
+        let static_mine = if pre_tap { crate::mirror::encode::encode(&node, ctx).ok().and_then(|sc| satsize::count_ops(&sc)) } else { None };
+        if let Some(sm) = static_mine {
+            for (which, mine, lib) in [("sat", sd.sat, sub.ext.sat_data), ("dissat", sd.dis, sub.ext.dissat_data)] {
+                if let (Some(m), Some(l)) = (mine, lib) {
+                    if sm + m.mops > sub.ext.static_ops + l.max_exec_op_count {
+                        return fail(
+                            &format!("static-{}/op-count/{}", which, node.frag_name()),
+                            format!("a canonical {}isfaction of {} counts {} opcodes ({} in the script + {} multisig keys), the library's bound is {} static + {} exec", if which == "sat" { "sat" } else { "dissat" }, sub, sm + m.mops, sm, m.mops, sub.ext.static_ops, l.max_exec_op_count),
+                        );
+                    }
+                }
+            }
+        }
         for (which, mine, lib) in [("sat", sd.sat, sub.ext.sat_data), ("dissat", sd.dis, sub.ext.dissat_data)] {
             let mine = match mine {
                 Some(m) => m,
@@ -93,6 +109,146 @@ fn check_static<C: ScriptContext>(ms: &Miniscript<DK, C>, ctx: crate::mirror::sp
         }
     }
     Ok(n)
+}
+
+/// Lane `canon`: every canonical satisfaction of a random miniscript (enumerated from the
+/// specification's table, not chosen by the library's satisfier) is executed with symbolic
+/// signatures; opcode count, stack depth and element count of each accepted run are bounded by
+/// the static figures.
+fn canon_case(src: &mut Src, rep: &mut Report) -> Result<(), Failure> {
+    use crate::mirror::canon;
+    use crate::mirror::spec::Ctx;
+    use crate::refscript::{eval_script, ExecData};
+    use bitcoin::hashes::Hash;
+    let ctx = *src.pick(&[Ctx::Segwitv0, Ctx::Tap, Ctx::Legacy, Ctx::Bare]);
+    let size = src.range(2, 11);
+    let mut cfg = if src.bool() { Cfg::new(ctx, size) } else { Cfg::sane(ctx, size) };
+    cfg.allow_uncompressed = true;
+    cfg.or_boost = *src.pick(&[1, 2, 4]);
+    cfg.thresh_boost = *src.pick(&[1, 1, 4]);
+    cfg.consistent_locks = true;
+    let node = gen::gen_ms(src, &cfg);
+    rep.desc = format!("{:?} {}", ctx, crate::mirror::ast::print(&node, true));
+    let unit = oracle::unit_of(&node, ctx).map_err(|e| Failure { sig: "mirror-encode".into(), msg: e })?;
+    // symbolic signatures of every key; locks at the script's maxima
+    let mut world = World { keys: BTreeSet::new(), preimages: keys::u().preimages.iter().copied().collect(), lock_time: 0, sequence: 0xffff_fffe, tx_version: 2 };
+    let mut ecdsa = Vec::new();
+    let mut leafk = Vec::new();
+    for k in node.keys() {
+        if let Ok(kb) = key_bytes(&k, ctx) {
+            if let Some(x) = keys::xonly_of(&kb) {
+                world.keys.insert(x);
+            }
+            match unit.leaf {
+                Some(lh) => {
+                    let mut x = [0u8; 32];
+                    x.copy_from_slice(&kb);
+                    leafk.push((x, lh));
+                }
+                None => ecdsa.push(kb),
+            }
+        }
+    }
+    let (afters, olders) = gen::locks_of(&[&node]);
+    if let Some(a) = afters.iter().max() {
+        world.lock_time = *a;
+    }
+    if let Some(o) = olders.iter().max() {
+        world.sequence = *o;
+    }
+    let (sat, checker) = crate::world::sign_symbolic(&world, &ecdsa, &leafk, None);
+    let leaf = unit.leaf;
+    let sigf = |kb: &[u8]| -> Option<Vec<u8>> {
+        match leaf {
+            Some(lh) => {
+                let mut x = [0u8; 32];
+                if kb.len() != 32 {
+                    return None;
+                }
+                x.copy_from_slice(kb);
+                sat.tap_leaf.get(&(x, lh)).map(|s| s.to_vec())
+            }
+            None => sat.ecdsa.get(kb).map(|s| s.to_vec()),
+        }
+    };
+    let env = canon::Env { ctx, sig: &sigf, cap: 24 };
+    let sd = match canon::canon(&node, &env) {
+        Some(x) => x,
+        None => {
+            rep.class("canon:not-enumerable");
+            return Ok(());
+        }
+    };
+    macro_rules! figures {
+        ($c:ty) => {{
+            match glue::ms_from_node::<$c>(&node, Level::Insane, true) {
+                Ok(ms) => Some((ms.ext.static_ops, ms.ext.sat_data)),
+                Err(_) => None,
+            }
+        }};
+    }
+    let fig = match ctx {
+        Ctx::Bare => figures!(miniscript::BareCtx),
+        Ctx::Legacy => figures!(miniscript::Legacy),
+        Ctx::Segwitv0 => figures!(miniscript::Segwitv0),
+        Ctx::Tap => figures!(miniscript::Tap),
+    };
+    let (static_ops, sat_data) = match fig {
+        Some(x) => x,
+        None => {
+            rep.class("rejected-by-library");
+            return Ok(());
+        }
+    };
+    let mut accepted = 0usize;
+    let mut tight = false;
+    for st in &sd.sat {
+        let mut stack = st.clone();
+        let mut trace = Trace::default();
+        let mut exec = ExecData { leaf: leaf.map(bitcoin::taproot::TapLeafHash::from_byte_array), annex: None, validation_weight_left: 10_000_000 };
+        let r = eval_script(&mut stack, &unit.script, &Flags::CONSENSUS, &checker, unit.sv, &mut exec, &mut trace);
+        rep.evals += 1;
+        match r {
+            Ok(()) if stack.len() == 1 && crate::refscript::cast_to_bool(&stack[0]) => {}
+            Ok(()) => {
+                return Err(Failure { sig: "harness-panic".into(), msg: format!("canonical satisfaction {:?} of {} leaves {:?}", st.iter().map(|x| keys::hex(x)).collect::<Vec<_>>(), rep.desc, stack.iter().map(|x| keys::hex(x)).collect::<Vec<_>>()) });
+            }
+            Err(ScriptError::UnsatisfiedLocktime) | Err(ScriptError::NegativeLocktime) => {
+                rep.class("canon:lock-unmet");
+                continue;
+            }
+            Err(ScriptError::OpCount) | Err(ScriptError::StackSize) | Err(ScriptError::PushSize) | Err(ScriptError::ScriptSize) | Err(ScriptError::SigCount) | Err(ScriptError::PubkeyCount) => {
+                rep.class("canon:over-consensus-limit");
+                continue;
+            }
+            Err(e) => {
+                return Err(Failure { sig: "harness-panic".into(), msg: format!("canonical satisfaction {:?} of {} is rejected by the reference interpreter: {:?}", st.iter().map(|x| keys::hex(x)).collect::<Vec<_>>(), rep.desc, e) });
+            }
+        }
+        accepted += 1;
+        let sdata = match sat_data {
+            Some(x) => x,
+            None => return fail(&format!("canon-satisfied-but-no-sat-data/{}", node.frag_name()), format!("{} has the satisfaction {:?} although its static data says none exists", rep.desc, st.iter().map(|x| keys::hex(x)).collect::<Vec<_>>())),
+        };
+        let (ops, depth) = trace.per_script.last().copied().unwrap_or((trace.op_count, trace.max_stack));
+        if ctx != Ctx::Tap && ops > static_ops + sdata.max_exec_op_count {
+            return fail(&format!("canon/op-count/{}", node.frag_name()), format!("a canonical satisfaction of {} counts {} opcodes, static bound {} + {} exec; stack {:?}", rep.desc, ops, static_ops, sdata.max_exec_op_count, st.iter().map(|x| x.len()).collect::<Vec<_>>()));
+        }
+        if depth > sdata.max_witness_stack_count + sdata.max_exec_stack_count {
+            return fail(&format!("canon/stack-depth/{}", node.frag_name()), format!("a canonical satisfaction of {} reaches {} stack+altstack elements, static bound {} witness + {} exec; stack {:?}", rep.desc, depth, sdata.max_witness_stack_count, sdata.max_exec_stack_count, st.iter().map(|x| x.len()).collect::<Vec<_>>()));
+        }
+        if st.len() > sdata.max_witness_stack_count {
+            return fail(&format!("canon/witness-elements/{}", node.frag_name()), format!("a canonical satisfaction of {} has {} elements, bound {}", rep.desc, st.len(), sdata.max_witness_stack_count));
+        }
+        if depth * 10 >= (sdata.max_witness_stack_count + sdata.max_exec_stack_count) * 8 {
+            tight = true;
+        }
+    }
+    rep.class(format!("canon:accepted>={}", if accepted >= 8 { 8 } else if accepted >= 2 { 2 } else { accepted }));
+    if accepted >= 2 || tight {
+        rep.nontrivial_by(&rep.desc.clone());
+    }
+    Ok(())
 }
 
 /// Compare the figures of one miniscript with a satisfaction of it.
@@ -296,16 +452,19 @@ fn stress_desc(src: &mut Src) -> (MDesc, &'static str) {
 impl Check for C09 {
     fn id(&self) -> &'static str { "C09" }
     fn rule(&self) -> String {
-        "lane `measure`: random descriptors of every output type (sane and consensus-only scripts, compressed/uncompressed/x-only/xpub keys) x random worlds x {non-malleable, malleable}; lane `static`: random miniscripts (4 contexts, sane and consensus-only): for EVERY sub-expression the library's static sat/dissat figures (witness bytes, witness elements, scriptSig bytes) must be >= the exact worst case over the canonical (dis)satisfactions of the specification's table, computed by an own recursion (thresh by exact DP over which k children are satisfied); lane `stress`: scripts built near each limit (thresholds with 10-84 children, combinations of 10-20-key multisigs, multi_a with 20-70 keys, or_i / pk_h / and_b chains of 20-70 links, threshold/hash mixes, tap leaves up to 30 levels deep) x full and partial worlds. Every satisfaction the library produces is put into a real transaction with real signatures and executed by the reference interpreter with a trace; checked: script_size()==encoding length; witness elements+1 <= max_satisfaction_witness_elements(); witness/scriptSig bytes <= max_satisfaction_size() (its stated conventions); txin weight increase (rust-bitcoin segwit_weight/legacy_weight) <= max_weight_to_satisfy(); consensus-counted non-push opcodes <= static_ops+max_exec_op_count; max stack+altstack <= max_witness_stack_count+max_exec_stack_count; and whenever the library accepted the script (default rules resp. consensus rules) the execution passes with standardness resp. consensus limits enforced (201 ops, 1000 stack, 520/80-byte items, 100 items, 3600/10000/520-byte scripts, 1650-byte scriptSig). Non-trivial = a measured value >= 80% of its static bound, or a stress script; distinct by (descriptor, world, mode).".into()
+        "lane `measure`: random descriptors of every output type (sane and consensus-only scripts, compressed/uncompressed/x-only/xpub keys) x random worlds x {non-malleable, malleable}; lane `static`: random miniscripts (4 contexts, sane and consensus-only): for EVERY sub-expression the library's static sat/dissat figures (witness bytes, witness elements, scriptSig bytes, and pre-taproot static_ops + max_exec_op_count vs opcodes counted in the independently encoded script + keys of executed CHECKMULTISIGs) must be >= the exact worst case over the canonical (dis)satisfactions of the specification's table, computed by an own recursion (thresh by exact DP over which k children are satisfied); lane `canon`: ALL canonical satisfactions of random miniscripts (enumerated from the specification's table by `mirror::canon`, capped at 24 per node keeping the largest) are executed on the reference interpreter with symbolic signatures; opcode count, stack depth and element count of every accepted run are bounded by the static figures (this reaches expensive paths that the satisfier never prefers); lane `stress`: scripts built near each limit (thresholds with 10-84 children, combinations of 10-20-key multisigs, multi_a with 20-70 keys, or_i / pk_h / and_b chains of 20-70 links, threshold/hash mixes, tap leaves up to 30 levels deep) x full and partial worlds. Every satisfaction the library produces is put into a real transaction with real signatures and executed by the reference interpreter with a trace; checked: script_size()==encoding length; witness elements+1 <= max_satisfaction_witness_elements(); witness/scriptSig bytes <= max_satisfaction_size() (its stated conventions); txin weight increase (rust-bitcoin segwit_weight/legacy_weight) <= max_weight_to_satisfy(); consensus-counted non-push opcodes <= static_ops+max_exec_op_count; max stack+altstack <= max_witness_stack_count+max_exec_stack_count; and whenever the library accepted the script (default rules resp. consensus rules) the execution passes with standardness resp. consensus limits enforced (201 ops, 1000 stack, 520/80-byte items, 100 items, 3600/10000/520-byte scripts, 1650-byte scriptSig). Non-trivial = a measured value >= 80% of its static bound, or a stress script; distinct by (descriptor, world, mode).".into()
     }
     fn assumptions(&self) -> Vec<String> { vec!["sizes and weights are measured on the executed witness with every signature stretched to the documented worst case (72-byte ECDSA element = 73 with its push, 65-byte Schnorr): the library ranks alternatives by assumed sizes, so the structure is the one it would return for such signatures".into()] }
     fn lanes(&self, tier: Tier) -> Vec<(&'static str, usize, usize)> {
         match tier {
-            Tier::Quick => vec![("measure", 80_000, 400), ("stress", 12_000, 200), ("static", 480_000, 300)],
-            Tier::Thorough => vec![("measure", 1_600_000, 500), ("stress", 240_000, 200), ("static", 9_600_000, 400)],
+            Tier::Quick => vec![("measure", 80_000, 400), ("stress", 12_000, 200), ("static", 480_000, 300), ("canon", 60_000, 300)],
+            Tier::Thorough => vec![("measure", 1_600_000, 500), ("stress", 240_000, 200), ("static", 9_600_000, 400), ("canon", 1_200_000, 400)],
         }
     }
     fn run_case(&self, lane: &str, src: &mut Src, rep: &mut Report) -> Result<(), Failure> {
+        if lane == "canon" {
+            return canon_case(src, rep);
+        }
         if lane == "static" {
             use crate::mirror::spec::Ctx;
             let ctx = *src.pick(&[Ctx::Segwitv0, Ctx::Tap, Ctx::Legacy, Ctx::Bare]);
